@@ -70,7 +70,7 @@ Section Init.
   Variables X V : Type.
   Variable f : X -> V.                                    (* function.eval, deterministic *)
 
-  Record iind := mk_iind { ipoint : X; ipen : V; iunp : V }.
+  Record iind := mk_iind { ipt : X; ipen : V; iunp : V }.
 
   (* init + doInit up to the parents *)
   Definition init_parents (P : list X) (mu : nat) (oracle : list nat) : list iind :=
@@ -83,7 +83,7 @@ Section Init.
     end.
 
   (* m_best / solution() *)
-  Definition init_solution (pop : list iind) : list (X * V) := map (fun m => (ipoint m, iunp m)) pop.
+  Definition init_solution (pop : list iind) : list (X * V) := map (fun m => (ipt m, iunp m)) pop.
 
   (* the seven classes *)
   Definition mocma_init := init_parents.
@@ -96,7 +96,7 @@ Section Init.
 End Init.
 
 Arguments mk_iind {X V}.
-Arguments ipoint {X V}.
+Arguments ipt {X V}.
 Arguments ipen {X V}.
 Arguments iunp {X V}.
 
